@@ -47,6 +47,8 @@ func main() {
 		// the counter-wrap scenarios are single long calls; they run beside the other groups
 		wrapDone := make(chan struct{})
 		go func() { defer close(wrapDone); wrap(r, 2) }()
+		wideDone := make(chan struct{})
+		go func() { defer close(wideDone); wide32(r) }()
 
 		// wall time per group: information for the reader of the evidence only, never judged
 		groupWall := map[string]float64{}
@@ -65,6 +67,7 @@ func main() {
 		timed("rewind", func() { rewind(r, workers) })
 		timed("zerosize", func() { zeroSize(r, workers) })
 		timed("waiting for wrap", func() { <-wrapDone })
+		timed("waiting for wide32", func() { <-wideDone })
 		r.SetExtra("group_wall_s", groupWall)
 
 		// Coverage floors (all reached deterministically).
@@ -89,8 +92,14 @@ func main() {
 		r.Floor("zero-size deques: wrapped rings with more than MaxInt/2 slots iterated", r.Table("zero-size deques", "wrapped ring with more than MaxInt/2 slots, len 3")+
 			r.Table("zero-size deques", "wrapped ring with more than MaxInt/2 slots, len 4")+r.Table("zero-size deques", "wrapped ring with more than MaxInt/2 slots, len 5"), 10)
 		wrapExps := []int{8, 16, 24}
-		if r.Thorough() {
+		if r.Thorough() && !is32() {
 			wrapExps = append(wrapExps, 32)
+		}
+		if r.Thorough() && is32() {
+			const tbl = "32-bit int: modifications between two Next calls, and lifetime count before a fresh iterator"
+			for _, k := range []string{"deque: 2^31-1", "deque: 2^31", "deque: 2^31+1", "deque: 2^32", "heap: 2^31-1", "heap: 2^31", "heap: 2^31+1", "queue: 2^31-1", "queue: 2^31", "queue: 2^31+1"} {
+				r.Floor("32-bit int, "+k+" modifications", r.Table(tbl, k), 1)
+			}
 		}
 		for _, e := range wrapExps {
 			for _, k := range []string{"heap", "queue"} {
